@@ -462,6 +462,20 @@ get_next_index() {
 }
 
 /**
+ * Returns the value remap_indices(first_index) would return, that is, the
+ * index number following the last one when everything in the database is
+ * numbered consecutively starting at first_index--which is how a database
+ * file is numbered when it is read back.  Unlike get_next_index(), this does
+ * not count index numbers that were handed out and then never used.
+ */
+int InterrogateDatabase::
+get_next_index_after_remap(int first_index) const {
+  return first_index +
+    (int)(_wrapper_map.size() + _function_map.size() + _type_map.size() +
+          _manifest_map.size() + _element_map.size() + _make_seq_map.size());
+}
+
+/**
  * Adds the indicated type to the database at the given index number.
  */
 void InterrogateDatabase::
